@@ -58,6 +58,10 @@ impl Language for Scala {
             self.end_package(writable)?;
         }
 
+        for c in data.consts.iter() {
+            self.write_const(writable, c)?;
+        }
+
         self.end_file(writable)?;
 
         Ok(())
@@ -158,7 +162,10 @@ impl Language for Scala {
     }
 
     fn write_const(&mut self, _w: &mut dyn Write, _c: &RustConst) -> std::io::Result<()> {
-        todo!()
+        Err(std::io::Error::new(
+            std::io::ErrorKind::Unsupported,
+            "constants are not supported when generating Scala",
+        ))
     }
 
     fn write_struct(&mut self, w: &mut dyn Write, rs: &RustStruct) -> std::io::Result<()> {
